@@ -52,6 +52,17 @@ Sets ==
                WithDirs(ObjectD("Query", <<>>, <<FieldD("x", I, <<>>)>>), <<DU("dd", <<>>)>>),
                WithDirs(ObjectD("W", <<>>, <<FieldD("w", I, <<>>)>>), <<DU("dd", <<AV("o", V("obj", [a |-> IntV(7)]))>>)>>),
                InputD("Opts", <<ArgDD("a", I, IntV(1)), ArgDD("b", I, IntV(2))>>) >>,
+    \* two extend blocks of one type: one brings the interface, the other the field the interface asks for - in either order
+    \* within one document (a load that has only the first is refused and out of scope)
+    s15 |-> << ObjectD("Query", <<>>, <<FieldD("item", Named("Item"), <<>>)>>), InterfaceD("Named", <<FieldD("name", S, <<>>)>>),
+               ObjectD("Item", <<>>, <<FieldD("id", I, <<>>)>>),
+               Ext([BaseDef("OBJECT", "Item") EXCEPT !.ifaces = <<"Named">>]),
+               Ext([BaseDef("OBJECT", "Item") EXCEPT !.fields = <<FieldD("name", S, <<>>)>>]) >>,
+    \* a scalar every module declares for itself (declared twice; the second declaration is skipped), an interface with a
+    \* field of that type and an implementor, spread over up to three loads in any order
+    s16 |-> << ObjectD("Query", <<>>, <<FieldD("ev", Named("Ev"), <<>>)>>), ScalarD("Date"),
+               InterfaceD("Stamped", <<FieldD("at", Named("Date"), <<ArgD("zone", Named("Date"))>>)>>), ScalarD("Date"),
+               [ObjectD("Ev", <<>>, <<FieldD("at", Named("Date"), <<ArgD("zone", Named("Date"))>>)>>) EXCEPT !.ifaces = <<"Stamped">>] >>,
     s6 |-> <<DQ1, DA1, DE, FIface, DN>>,          \* invalid: Z does not provide N.name
     s7 |-> <<DQ1, DA1, FInOut, DE>> ]              \* invalid: input field of object type
 
